@@ -103,6 +103,7 @@ def jstep (j : J) : Ev → J
   | .stClosed => if j.dead then j else j.flag "closed-without-close-event"
   | .dump _ => j
   | .snoop _ _ => j
+  | .lpcerr => j
   | .fault w => j.flag ("crash " ++ w)
 
 def judgeFrom (j : J) (evs : List Ev) : J := evs.foldl jstep j
